@@ -494,4 +494,252 @@ theorem len_eq_card (mi : MasterIndex) (a : ASet) (wf : WF a) :
     a.len mi = (a.keys mi).length ∧ (a.keys mi).Nodup ∧ ∀ h, h ∈ a.keys mi ↔ a.has mi h = true :=
   ⟨by simp [ASet.len, ASet.keys], keys_nodup mi a wf, mem_keys_iff mi a wf⟩
 
+/-! ### the structure refines a finite map `Handle → T` -/
+
+theorem sub_setSub (a : ASet) (t t' : BlobType) (s : Sub) :
+    (a.setSub t s).sub t' = if t' = t then s else a.sub t' := by
+  cases t <;> cases t' <;> simp [ASet.setSub, ASet.sub]
+
+theorem setSub_overflow (a : ASet) (t : BlobType) (s : Sub) : (a.setSub t s).overflow = a.overflow := by
+  cases t <;> rfl
+
+theorem setSub_wf {a : ASet} (wf : WF a) (t : BlobType) (s : Sub) (hs : s.value.length = s.isSet.length) :
+    WF (a.setSub t s) := by
+  cases t
+  · exact ⟨hs, wf.lenT, wf.ovNodup⟩
+  · exact ⟨wf.lenD, hs, wf.ovNodup⟩
+
+theorem get_new (mi : MasterIndex) (h : Handle) : (ASet.new mi).get mi h = none := by
+  rw [get_eq]
+  have : ovGet (ASet.new mi).overflow h = none := by simp [ASet.new, ovGet]
+  rw [this]
+  simp only [slotGet]
+  split
+  · rfl
+  · have : ((ASet.new mi).sub h.type).isSet.getD (blobIndex mi h).toNat false = false := by
+      cases h.type <;> simp [ASet.new, ASet.sub, List.getD_eq_getElem?_getD, List.getElem?_replicate] <;> split <;> rfl
+    rw [this]; rfl
+
+/-- the slot of a handle is valid -/
+def validSlot (mi : MasterIndex) (a : ASet) (h : Handle) : Prop :=
+  ¬ (blobIndex mi h ≥ ((a.sub h.type).value.length : Int) ∨ blobIndex mi h = -1)
+
+instance (mi : MasterIndex) (a : ASet) (h : Handle) : Decidable (validSlot mi a h) := by
+  unfold validSlot; infer_instance
+
+theorem slot_inj (mi : MasterIndex) (h h' : Handle) (ht : h'.type = h.type) (hi : blobIndex mi h' = blobIndex mi h)
+    (hv : blobIndex mi h ≠ -1) : h' = h := by
+  unfold blobIndex at hi hv
+  rw [ht] at hi
+  have := firstPos_inj _ _ _ hi (by rw [hi]; exact hv)
+  cases h; cases h'; simp_all
+
+theorem getD_set_eq {α} (l : List α) (i : Nat) (x d : α) (h : i < l.length) : (l.set i x).getD i d = x := by
+  simp [List.getD_eq_getElem?_getD, h]
+
+theorem getD_set_ne {α} (l : List α) (i j : Nat) (x d : α) (h : i ≠ j) : (l.set i x).getD j d = l.getD j d := by
+  simp [List.getD_eq_getElem?_getD, List.getElem?_set_ne h]
+
+/-- writing the slot of `h` changes what `Get` answers for `h` only -/
+theorem slotGet_update (mi : MasterIndex) (a : ASet) (wf : WF a) (h h' : Handle) (hv : validSlot mi a h)
+    (nv : Nat) (nb : Bool) :
+    slotGet mi (a.setSub h.type ⟨(a.sub h.type).value.set (blobIndex mi h).toNat nv,
+        (a.sub h.type).isSet.set (blobIndex mi h).toNat nb⟩) h' =
+      if h' = h then (if nb then some nv else none) else slotGet mi a h' := by
+  have hl := wf.len h.type
+  unfold validSlot at hv
+  rcases blobIndex_cases mi h with hb | ⟨i, hi1, _, hb⟩
+  · exact absurd (Or.inr hb) hv
+  · rw [hb] at hv ⊢
+    simp only [Int.toNat_natCast]
+    have hil : i < (a.sub h.type).value.length := by omega
+    by_cases hh : h' = h
+    · subst hh
+      simp only [if_true, slotGet, sub_setSub, hb, List.length_set, Int.toNat_natCast]
+      simp only [hv, if_false]
+      rw [getD_set_eq _ _ _ _ (by omega), getD_set_eq _ _ _ _ hil]
+    · simp only [hh, if_false, slotGet, sub_setSub]
+      by_cases ht : h'.type = h.type
+      · simp only [ht, if_true, List.length_set]
+        rcases blobIndex_cases mi h' with hb' | ⟨j, hj1, _, hb'⟩
+        · simp [hb']
+        · have hij : i ≠ j := by
+            intro e
+            apply hh
+            exact slot_inj mi h h' ht (by rw [hb, hb', e]) (by rw [hb]; omega)
+          rw [hb']
+          simp only [Int.toNat_natCast]
+          rw [getD_set_ne _ _ _ _ _ hij, getD_set_ne _ _ _ _ _ hij]
+      · simp only [ht, if_false]
+
+theorem sub_with_overflow (a : ASet) (o : List (Handle × Nat)) (t : BlobType) :
+    ASet.sub { a with overflow := o } t = a.sub t := by cases t <;> rfl
+
+theorem slotGet_with_overflow (mi : MasterIndex) (a : ASet) (o : List (Handle × Nat)) (h : Handle) :
+    slotGet mi { a with overflow := o } h = slotGet mi a h := by
+  simp only [slotGet, sub_with_overflow]
+
+theorem set_eq (mi : MasterIndex) (a : ASet) (h : Handle) (v : Nat) :
+    a.set mi h v =
+      if (ovGet a.overflow h).isSome ∨ ¬ validSlot mi a h then { a with overflow := ovSet a.overflow h v }
+      else a.setSub h.type ⟨(a.sub h.type).value.set (blobIndex mi h).toNat v,
+        (a.sub h.type).isSet.set (blobIndex mi h).toNat true⟩ := by
+  unfold ASet.set validSlot
+  by_cases hs : (ovGet a.overflow h).isSome
+  · simp [hs]
+  · by_cases hv : (blobIndex mi h ≥ ((a.sub h.type).value.length : Int) ∨ blobIndex mi h = -1)
+    · simp [hs, hv]
+    · simp [hs, hv]
+
+theorem delete_eq (mi : MasterIndex) (a : ASet) (h : Handle) :
+    a.delete mi h =
+      if (ovGet a.overflow h).isSome then { a with overflow := ovDel a.overflow h }
+      else if validSlot mi a h then
+        a.setSub h.type ⟨(a.sub h.type).value, (a.sub h.type).isSet.set (blobIndex mi h).toNat false⟩
+      else a := by
+  unfold ASet.delete validSlot
+  by_cases hs : (ovGet a.overflow h).isSome
+  · simp [hs]
+  · by_cases hv : (blobIndex mi h ≥ ((a.sub h.type).value.length : Int) ∨ blobIndex mi h = -1)
+    · have : ¬ (blobIndex mi h < ((a.sub h.type).value.length : Int) ∧ blobIndex mi h ≠ -1) := by omega
+      simp [hs, hv, this]
+    · have : (blobIndex mi h < ((a.sub h.type).value.length : Int) ∧ blobIndex mi h ≠ -1) := by omega
+      simp [hs, hv, this]
+
+/-- invariant relative to the master index: well-formed, and the handles of the overflow map have
+    no valid slot (they were not part of `idx[0]` when the set was created) -/
+structure Inv (mi : MasterIndex) (a : ASet) : Prop extends WF a where
+  ovInvalid : ∀ h, (ovGet a.overflow h).isSome → ¬ validSlot mi a h
+
+theorem new_inv (mi : MasterIndex) : Inv mi (ASet.new mi) :=
+  ⟨new_wf mi, fun h hs => by simp [ASet.new, ovGet] at hs⟩
+
+theorem slotGet_invalid (mi : MasterIndex) (a : ASet) (h : Handle) (hv : ¬ validSlot mi a h) : slotGet mi a h = none := by
+  unfold validSlot at hv
+  have hv' := Classical.not_not.mp hv
+  simp [slotGet, hv']
+
+theorem validSlot_setSub (mi : MasterIndex) (a : ASet) (t : BlobType) (s : Sub) (h : Handle)
+    (hl : s.value.length = (a.sub t).value.length) : validSlot mi (a.setSub t s) h ↔ validSlot mi a h := by
+  unfold validSlot
+  rw [sub_setSub]
+  by_cases ht : h.type = t
+  · simp [ht, hl]
+  · simp [ht]
+
+/-- **refines_map (Set)** -/
+theorem get_set (mi : MasterIndex) (a : ASet) (inv : Inv mi a) (h h' : Handle) (v : Nat) :
+    (a.set mi h v).get mi h' = if h' = h then some v else a.get mi h' := by
+  rw [set_eq]
+  split
+  · rw [get_eq, get_eq]
+    simp only [ovGet_ovSet, slotGet_with_overflow]
+    by_cases hh : h' = h
+    · simp [hh]
+    · simp only [hh, if_false]
+  · rename_i hc
+    have hn : ovGet a.overflow h = none := by
+      cases ho : ovGet a.overflow h with
+      | none => rfl
+      | some x => exact absurd (Or.inl (by simp [ho])) hc
+    have hv : validSlot mi a h := Classical.not_not.mp (fun hv => hc (Or.inr hv))
+    rw [get_eq, get_eq, setSub_overflow]
+    have := slotGet_update mi a inv.toWF h h' hv v true
+    simp only [if_true] at this
+    rw [this]
+    by_cases hh : h' = h
+    · subst hh; simp [hn]
+    · simp [hh]
+
+theorem set_inv (mi : MasterIndex) (a : ASet) (inv : Inv mi a) (h : Handle) (v : Nat) : Inv mi (a.set mi h v) := by
+  rw [set_eq]
+  split
+  · rename_i hc
+    refine ⟨⟨inv.lenD, inv.lenT, ovSet_nodup _ _ _ inv.ovNodup⟩, ?_⟩
+    intro h' hs
+    simp only [ovGet_ovSet] at hs
+    have : validSlot mi { a with overflow := ovSet a.overflow h v } h' ↔ validSlot mi a h' := by
+      simp only [validSlot, sub_with_overflow]
+    rw [this]
+    by_cases hh : h' = h
+    · subst hh
+      rcases hc with hc | hc
+      · exact inv.ovInvalid _ hc
+      · exact hc
+    · simp only [hh, if_false] at hs
+      exact inv.ovInvalid _ hs
+  · refine ⟨setSub_wf inv.toWF _ _ (by simp [inv.toWF.len h.type]), ?_⟩
+    intro h' hs
+    rw [setSub_overflow] at hs
+    rw [validSlot_setSub _ _ _ _ _ (by simp)]
+    exact inv.ovInvalid _ hs
+
+/-- **refines_map (Delete)** -/
+theorem get_delete (mi : MasterIndex) (a : ASet) (inv : Inv mi a) (h h' : Handle) :
+    (a.delete mi h).get mi h' = if h' = h then none else a.get mi h' := by
+  rw [delete_eq]
+  split
+  · rename_i hs
+    rw [get_eq, get_eq]
+    simp only [ovGet_ovDel, slotGet_with_overflow]
+    by_cases hh : h' = h
+    · subst hh
+      simp only [if_true]
+      exact slotGet_invalid mi a _ (inv.ovInvalid _ hs)
+    · simp only [hh, if_false]
+  · rename_i hs
+    have hn : ovGet a.overflow h = none := by
+      cases ho : ovGet a.overflow h with
+      | none => rfl
+      | some x => simp [ho] at hs
+    split
+    · rename_i hv
+      rw [get_eq, get_eq, setSub_overflow]
+      have hval : (a.sub h.type).value = (a.sub h.type).value.set (blobIndex mi h).toNat
+          ((a.sub h.type).value.getD (blobIndex mi h).toNat 0) := by
+        apply List.ext_getElem?
+        intro j
+        rw [List.getElem?_set]
+        by_cases hj : (blobIndex mi h).toNat = j
+        · subst hj
+          simp only [if_true]
+          split
+          · rename_i hl; simp [List.getD_eq_getElem?_getD, hl]
+          · rename_i hl; simp at hl; simp [List.getElem?_eq_none hl]
+        · simp [hj]
+      have := slotGet_update mi a inv.toWF h h' hv ((a.sub h.type).value.getD (blobIndex mi h).toNat 0) false
+      rw [← hval] at this
+      rw [this]
+      by_cases hh : h' = h
+      · subst hh; simp [hn]
+      · simp [hh]
+    · rename_i hv
+      by_cases hh : h' = h
+      · subst hh
+        rw [get_eq, hn]
+        simp only [if_true]
+        exact slotGet_invalid mi a _ hv
+      · simp [hh]
+
+theorem delete_inv (mi : MasterIndex) (a : ASet) (inv : Inv mi a) (h : Handle) : Inv mi (a.delete mi h) := by
+  rw [delete_eq]
+  split
+  · refine ⟨⟨inv.lenD, inv.lenT, ovDel_nodup _ _ inv.ovNodup⟩, ?_⟩
+    intro h' hs
+    simp only [ovGet_ovDel] at hs
+    have : validSlot mi { a with overflow := ovDel a.overflow h } h' ↔ validSlot mi a h' := by
+      simp only [validSlot, sub_with_overflow]
+    rw [this]
+    by_cases hh : h' = h
+    · simp [hh] at hs
+    · simp only [hh, if_false] at hs
+      exact inv.ovInvalid _ hs
+  · split
+    · refine ⟨setSub_wf inv.toWF _ _ (by simp [inv.toWF.len h.type]), ?_⟩
+      intro h' hs
+      rw [setSub_overflow] at hs
+      rw [validSlot_setSub mi a h.type ⟨(a.sub h.type).value, (a.sub h.type).isSet.set (blobIndex mi h).toNat false⟩ h' rfl]
+      exact inv.ovInvalid _ hs
+    · exact inv
+
 end Restic.Props.C48
